@@ -142,6 +142,44 @@ def rule_side_channel(ctx):
     m = prog.mod("transforms")
     written: dict[str, list[tuple[str, set[str], ast.AST]]] = {}
     stage_fns = {st.name: st.fn for st in stages(prog) if st.fn is not None}
+
+    def key_of(mod, node):
+        """the key text of `args[<node>]` / `args.get(<node>)`: a string constant, or a module-level name bound to one"""
+        if isinstance(node, ast.Constant) and isinstance(node.value, str):
+            return node.value
+        if isinstance(node, ast.Name):
+            home = prog.locate(mod.name, node.id) or (mod.name, node.id)
+            v = prog.modules[home[0]].consts.get(home[1]) if home[0] in prog.modules else None
+            if isinstance(v, ast.Constant) and isinstance(v.value, str):
+                return v.value
+        return None
+
+    # accessor helpers anywhere in the package: `def set_k(node, ...): node.args[K] = ...` / `def k(node): return node.args.get(K)`
+    setters, getters = {}, {}
+    for mod_ in prog.modules.values():
+        for q, f in mod_.functions.items():
+            if "." in q or not f.args.args:
+                continue
+            params = [a.arg for a in f.args.args]
+            for n in ast.walk(f):
+                if isinstance(n, ast.Assign):
+                    for t in n.targets:
+                        if isinstance(t, ast.Subscript) and isinstance(t.value, ast.Attribute) and t.value.attr == "args" \
+                                and isinstance(t.value.value, ast.Name) and t.value.value.id in params and key_of(mod_, t.slice) is not None:
+                            setters[(mod_.name, q)] = (params.index(t.value.value.id), key_of(mod_, t.slice))
+                if isinstance(n, ast.Return) and isinstance(n.value, ast.Call) and isinstance(n.value.func, ast.Attribute) and n.value.func.attr == "get" \
+                        and isinstance(n.value.func.value, ast.Attribute) and n.value.func.value.attr == "args" \
+                        and isinstance(n.value.func.value.value, ast.Name) and n.value.func.value.value.id in params and n.value.args \
+                        and key_of(mod_, n.value.args[0]) is not None and len(f.body) <= 2:
+                    getters[(mod_.name, q)] = key_of(mod_, n.value.args[0])
+    setters = {k: v for k, v in setters.items() if k[0] != "transforms" or k[1] not in stage_fns}
+
+    def helper_of(mod, call, table):
+        d = prog.dotted(mod, call.func) if isinstance(call, ast.Call) else None
+        r = prog.resolve(d) if d else None
+        if r is None and isinstance(call, ast.Call) and isinstance(call.func, ast.Name):
+            r = prog.locate(mod.name, call.func.id) or (mod.name, call.func.id)
+        return table.get(tuple(r)) if r else None
     # helpers of the stages write side-channel keys too (a stage split into private functions): scan the whole module
     all_fns = dict(stage_fns)
     for q, f in m.functions.items():
@@ -153,11 +191,15 @@ def rule_side_channel(ctx):
         param = fn.args.args[0].arg if fn.args.args else None
         # (a) <x>.args["k"] = ...
         for n in ast.walk(fn):
+            pairs = []
             if isinstance(n, ast.Assign):
                 for t in n.targets:
-                    if isinstance(t, ast.Subscript) and isinstance(t.value, ast.Attribute) and t.value.attr == "args" and isinstance(t.slice, ast.Constant):
-                        key = t.slice.value
-                        holder = t.value.value
+                    if isinstance(t, ast.Subscript) and isinstance(t.value, ast.Attribute) and t.value.attr == "args" and key_of(m, t.slice) is not None:
+                        pairs.append((key_of(m, t.slice), t.value.value))
+            elif isinstance(n, ast.Call) and (hs := helper_of(m, n, setters)) is not None and len(n.args) > hs[0]:
+                pairs.append((hs[1], n.args[hs[0]]))  # a setter helper called with this holder
+            if pairs:
+                    for key, holder in pairs:
                         classes = set()
                         if isinstance(holder, ast.Name):
                             if holder.id == param:
@@ -195,6 +237,8 @@ def rule_side_channel(ctx):
             k = n.args[0].value
             if k in written or not any(k in (v["arg_types"] or []) for v in sg.classes.values()):
                 read[k] = n
+        elif isinstance(n, ast.Call) and (gk := helper_of(cur_mod, n, getters)) is not None:
+            read[gk] = n  # a getter helper: `expr.seed(transformed)` reads args.get("seed")
     ctx.floor("side-channel keys written", len(written), 5)
     ctx.floor("side-channel keys read by _execute", len(read), 5)
     cm = prog.mod("cursor")
